@@ -538,6 +538,12 @@ def _run_case(case, ctx):
                     ref = lik.noise.unsqueeze(-1) * torch.eye(ns)
                     ctx.close("likelihood_adds_noise", add, ref.expand(add.shape), "direct", cls="lik:gauss")
                     ctx.close("likelihood_keeps_mean", pl.mean, out.mean, "bit")
+                    if case["seed"] % 3 == 1:
+                        # a `noise=` keyword at call time is "used directly" (noise_models docstring): also values below the
+                        # lower bound of the LEARNED noise
+                        tn_ = (util.rand(util.gen(case["seed"] + 17), ns) + 0.01) * torch.tensor([1.0, 1e-6, 1e-3])[torch.arange(ns) % 3]
+                        pl2 = lik(out, noise=tn_.expand(*cov.shape[:-2], ns))
+                        ctx.close("likelihood_adds_noise", pl2.covariance_matrix - cov, torch.diag_embed(tn_).expand(cov.shape), (1e-12, 1e-10), cls="lik:gauss:call_time_noise")
                 else:
                     pl = lik(out, noise=test_noise)
                     add = pl.covariance_matrix - cov
